@@ -8,8 +8,13 @@
 package main
 
 import (
+	"context"
 	"fmt"
 	"strings"
+
+	"storj.io/drpc/drpcmux"
+
+	"storj.io/drpc"
 
 	"verifharness/census"
 	"verifharness/director"
@@ -407,6 +412,8 @@ var firstCallShapes = []struct {
 	name, client, handler string
 	rendezvous            bool
 }{
+	// the handler flushes by hand: one answer flushed, one still buffered when it returns early
+	{"handler-returns-early-manual-flush-rendezvous", "sssshR", "rsfs", true},
 	{"failed-send-then-recv", "mrhR", "sR", false},
 	{"failed-sends-then-recv-send", "mmrshR", "srR", false},
 	{"recv-first-control", "rhR", "sR", false},
@@ -433,6 +440,13 @@ func firstCalls(id string, seed uint64, shape int) runner.Result {
 	sh := firstCallShapes[shape]
 	if cfg.Net.Cap == 0 && !sh.rendezvous {
 		cfg.Net.Cap = -1
+	}
+	if strings.Contains(sh.name, "manual-flush") {
+		cfg.Server.Stream.ManualFlush = true
+		// the second answer has to stay in the writer's buffer: a handler whose own write goes to a
+		// transport nobody reads from is blocked by flow control, not by the library
+		cfg.Server.WriterBufferSize = 1 << 20
+		cfg.Desc += " server-manual-flush server-wbuf=1MiB"
 	}
 	if sh.rendezvous {
 		// a transport without any buffering of its own (net.Pipe): a write completes when the peer reads it
@@ -490,6 +504,116 @@ func firstCalls(id string, seed uint64, shape int) runner.Result {
 	return runner.Violation(id, key+":probe-"+strings.SplitN(verdict, ":", 2)[0], "after the RPC the connection is not closed but the probe RPC ended with "+verdict+"\nprogram: "+hist+"\n"+census.Dump(census.InDRPC(snap)))
 }
 
+// ---- the same early return through the real mux ----
+
+type muxMsg struct{ B []byte }
+
+type muxEnc struct{}
+
+func (muxEnc) Marshal(m drpc.Message) ([]byte, error) { return m.(*muxMsg).B, nil }
+func (muxEnc) Unmarshal(b []byte, m drpc.Message) error {
+	m.(*muxMsg).B = append([]byte(nil), b...)
+	return nil
+}
+
+type muxSvc struct{}
+
+func (*muxSvc) Unary(ctx context.Context, in *muxMsg) (*muxMsg, error) { return &muxMsg{B: in.B}, nil }
+func (*muxSvc) ServerStream(in *muxMsg, st drpc.Stream) error {
+	return st.MsgSend(&muxMsg{B: []byte("answer")}, muxEnc{})
+}
+func (*muxSvc) Bidi(st drpc.Stream) error {
+	var m muxMsg
+	if err := st.MsgRecv(&m, muxEnc{}); err != nil {
+		return err
+	}
+	return st.MsgSend(&muxMsg{B: []byte("answer")}, muxEnc{})
+}
+
+type muxDesc struct{}
+
+func (muxDesc) NumMethods() int { return 3 }
+func (muxDesc) Method(n int) (string, drpc.Encoding, drpc.Receiver, interface{}, bool) {
+	switch n {
+	case 0:
+		return "/m/Unary", muxEnc{}, func(s interface{}, ctx context.Context, in1, in2 interface{}) (drpc.Message, error) {
+			return s.(*muxSvc).Unary(ctx, in1.(*muxMsg))
+		}, (*muxSvc).Unary, true
+	case 1:
+		return "/m/ServerStream", muxEnc{}, func(s interface{}, ctx context.Context, in1, in2 interface{}) (drpc.Message, error) {
+			return nil, s.(*muxSvc).ServerStream(in1.(*muxMsg), in2.(drpc.Stream))
+		}, (*muxSvc).ServerStream, true
+	case 2:
+		return "/m/Bidi", muxEnc{}, func(s interface{}, ctx context.Context, in1, in2 interface{}) (drpc.Message, error) {
+			return nil, s.(*muxSvc).Bidi(in1.(drpc.Stream))
+		}, (*muxSvc).Bidi, true
+	}
+	return "", nil, nil, nil, false
+}
+
+// muxEarlyReturn: handlers registered with the real mux take one message, answer and return nil while
+// the client (all its sends, the half-close, then the receives) still has messages to send; transports
+// with and without buffering. The RPC must end on both sides and the probe must go through.
+func muxEarlyReturn(id string, seed uint64) runner.Result {
+	r := &payload.SplitMix{S: seed}
+	cfg := prog.GenConfig(r, false)
+	rendezvous := r.Intn(3) != 0
+	if rendezvous {
+		cfg.Net.Cap = 0
+	} else if cfg.Net.Cap == 0 {
+		cfg.Net.Cap = -1
+	}
+	mux := drpcmux.New()
+	if err := mux.Register(&muxSvc{}, muxDesc{}); err != nil {
+		return runner.Inconcl(id, "Register: "+err.Error())
+	}
+	rg := rig.New(rig.Config{Net: cfg.Net, Client: cfg.Client, Server: cfg.Server}, mux)
+	defer rg.Teardown()
+	rpc := payload.Pick(r, []string{"/m/Bidi", "/m/ServerStream"})
+	nsend := 2 + r.Intn(4)
+	hist := fmt.Sprintf("%s | mux-early-return rendezvous=%v: %s takes 1 message, answers, returns nil; client sends %d, half-closes, receives", cfg.Desc, rendezvous, rpc, nsend)
+	op := rig.Go("call", func() (interface{}, error) {
+		st, err := rg.Conn.NewStream(context.Background(), rpc, muxEnc{})
+		if err != nil {
+			return nil, err
+		}
+		defer st.Close()
+		for i := 0; i < nsend; i++ {
+			if st.MsgSend(&muxMsg{B: payload.Make(1, 0, 0, uint32(i), 30)}, muxEnc{}) != nil {
+				break
+			}
+		}
+		st.CloseSend()
+		for {
+			var m muxMsg
+			if err := st.MsgRecv(&m, muxEnc{}); err != nil {
+				return nil, nil
+			}
+		}
+	})
+	if !op.Wait() {
+		_, snap := census.Quiesce(rig.Watchdog)
+		return runner.Violation(id, "first-calls:mux-early-return:rpc-never-completes", "the handler has returned but the client's call never ends, on a connection that is not closed\nprogram: "+hist+"\n"+census.Dump(census.InDRPC(snap)))
+	}
+	if rig.IsClosed(rg.Conn.Closed()) {
+		return runner.Hold(id, hist+" (connection closed)", false)
+	}
+	var out muxMsg
+	probe := rig.Go("probe", func() (interface{}, error) {
+		return nil, rg.Conn.Invoke(context.Background(), "/m/Unary", muxEnc{}, &muxMsg{B: []byte("probe")}, &out)
+	})
+	if !probe.Wait() {
+		_, snap := census.Quiesce(rig.Watchdog)
+		return runner.Violation(id, "first-calls:mux-early-return:probe-blocked", "after the RPC the connection is not closed but the probe RPC is stuck\nprogram: "+hist+"\n"+census.Dump(census.InDRPC(snap)))
+	}
+	if probe.Err != nil && !rig.IsClosed(rg.Conn.Closed()) {
+		return runner.Violation(id, "first-calls:mux-early-return:probe-failed", "after the RPC the connection is not closed but the probe RPC failed: "+rig.ErrStr(probe.Err)+"\nprogram: "+hist)
+	}
+	res := runner.Hold(id, hist, true)
+	res.Events = int64(nsend + 2)
+	return res
+}
+
 func gen(tier string, seed uint64) []runner.Scenario {
 	n := 600
 	if tier == "thorough" {
@@ -508,6 +632,10 @@ func gen(tier string, seed uint64) []runner.Scenario {
 			shape := (i / 12) % len(firstCallShapes)
 			id4 := fmt.Sprintf("first-calls/%s/%d", firstCallShapes[shape].name, i)
 			out = append(out, runner.Scenario{ID: id4, Run: func() runner.Result { return firstCalls(id4, payload.Hash(seed, 0xC063, uint64(i)), shape) }})
+		}
+		if i%15 == 0 {
+			id5 := fmt.Sprintf("mux-early-return/%d", i)
+			out = append(out, runner.Scenario{ID: id5, Run: func() runner.Result { return muxEarlyReturn(id5, payload.Hash(seed, 0xC064, uint64(i))) }})
 		}
 		if i%6 == 0 {
 			id2 := fmt.Sprintf("queued-cancel/%d", i)
